@@ -9,6 +9,7 @@ import (
 	"encoding/json"
 	"flag"
 	"fmt"
+	"math"
 	"math/rand"
 	"os"
 	"path/filepath"
@@ -270,7 +271,7 @@ func (wd *world) obs(a act) tr.E {
 	keys := make([]tr.E, wd.nkeys)
 	for k := 1; k <= wd.nkeys; k++ {
 		present, cur, waiters := semap.VerifKeyState(wd.m, wd.key(k))
-		keys[k-1] = tr.E{"present": present, "cur": cur, "waiters": waiters}
+		keys[k-1] = tr.E{"present": present, "cur": specCur(curRatio, cur), "waiters": waiters}
 	}
 	if a.Op == "batch" {
 		as := make([]tr.E, 0, len(a.As))
@@ -316,7 +317,39 @@ func (wd *world) resolveBatch(a act) act {
 	return a
 }
 
+// Ratios near the top of the integer range ("any number of readers, one writer") do not fit TLC's
+// integers.  For the handful of workers of a run the ideal semaphore behaves the same for every ratio
+// above their number, so the trace carries hugeSpec (resp. hugeSpec-1) where the real container is
+// built with math.MaxInt (resp. MaxInt-1), and token counts read back from it are moved by the same
+// offset; a count that wrapped around stays out of range for the specification.
+const hugeSpec = 1 << 30
+
+func realRatio(r int) int {
+	if r >= hugeSpec-1 {
+		return math.MaxInt - (hugeSpec - r)
+	}
+	return r
+}
+
+func specCur(realR, cur int) int {
+	if realR >= math.MaxInt-1 {
+		if cur > math.MaxInt/2 {
+			return cur - (math.MaxInt - hugeSpec)
+		}
+		if cur < -(1 << 30) {
+			return -(1 << 30) // wrapped around: clamp to what the trace writer can carry
+		}
+	}
+	return cur
+}
+
+var curRatio int // real ratio of the container made last (one container at a time)
+
 func newMap(variant string, ratio, shards int) semap.SemMapper {
+	ratio = realRatio(ratio)
+	curRatio = ratio
+	// one container at a time: from here on every map (shard) built belongs to the container made now
+	semap.VerifReset()
 	switch variant {
 	case "wide":
 		return semap.NewWideSemMap(semap.WithRwRatio(ratio), semap.WithPrime(uint64(shards)))
@@ -523,10 +556,12 @@ func runStress(w *tr.W, rng *rand.Rand, variant string, ratio, shards, nthreads,
 	for i := range seeds {
 		seeds[i] = rng.Int63()
 	}
+	var finished int32
 	for t := 0; t < nthreads; t++ {
 		wg.Add(1)
 		go func(t int) {
 			defer wg.Done()
+			defer atomic.AddInt32(&finished, 1)
 			r := rand.New(rand.NewSource(seeds[t]))
 			for i := 0; i < opsPer; i++ {
 				k := r.Intn(nkeys) + 1
@@ -567,15 +602,115 @@ func runStress(w *tr.W, rng *rand.Rand, variant string, ratio, shards, nthreads,
 			}
 		}(t)
 	}
-	wg.Wait()
+	stuck := waitOr(&wg, 120*time.Second, nthreads, &finished)
+	mu.Lock()
+	snap := append([]tr.E(nil), evs...)
+	mu.Unlock()
 	w.Emit(tr.E{"ev": "reset", "ratio": ratio, "variant": variant, "shards": shards, "src": "stress", "keystr": false})
-	for _, e := range evs {
+	for _, e := range snap {
 		w.Emit(e)
 	}
-	w.Emit(tr.E{"ev": "end", "entries": semap.VerifEntries(m)})
+	w.Emit(tr.E{"ev": "end", "entries": semap.VerifEntries(m), "stuck": stuck})
+}
+
+// waitOr waits for the goroutines of a free-running round; if they are not done within d the round is
+// reported with the number of goroutines that never came back (an observation for the trace spec:
+// every call of such a round must return, nobody is left to wait for), and they are left behind.
+func waitOr(wg *sync.WaitGroup, d time.Duration, nthreads int, finished *int32) (stuck int) {
+	ch := make(chan struct{})
+	go func() { wg.Wait(); close(ch) }()
+	select {
+	case <-ch:
+		return 0
+	case <-time.After(d):
+		return nthreads - int(atomic.LoadInt32(finished))
+	}
+}
+
+var coldStuck int
+
+// cold-start rounds: a container nobody has used yet, a few goroutines released together by a spin
+// barrier, one or two acquire/release pairs each on one or two keys.  Whatever a container sets up on
+// first use (a shard, an entry) is set up under contention here; the monitor events and the entries
+// left at the end are judged like a stress run.
+func runCold(w *tr.W, rng *rand.Rand, variant string, ratio, shards, nthreads int) {
+	m := newMap(variant, ratio, shards)
+	var mu sync.Mutex
+	var evs []tr.E
+	logf := func(e tr.E) {
+		mu.Lock()
+		evs = append(evs, e)
+		mu.Unlock()
+	}
+	type op struct {
+		k int
+		m string
+	}
+	progs := make([][]op, nthreads)
+	nkeys := 1 + rng.Intn(2)
+	for t := range progs {
+		for i := 0; i < 1+rng.Intn(2); i++ {
+			md := "w"
+			if rng.Intn(3) == 0 {
+				md = "r"
+			}
+			progs[t] = append(progs[t], op{1 + rng.Intn(nkeys), md})
+		}
+	}
+	var wg sync.WaitGroup
+	var ready, goFlag, finished int32
+	for t := 0; t < nthreads; t++ {
+		wg.Add(1)
+		go func(t int) {
+			defer wg.Done()
+			defer atomic.AddInt32(&finished, 1)
+			atomic.AddInt32(&ready, 1)
+			for atomic.LoadInt32(&goFlag) == 0 {
+			}
+			for _, o := range progs[t] {
+				var sw *semap.Weighted
+				var err error
+				if o.m == "w" {
+					sw, err = m.AcquireWrite(context.Background(), o.k)
+				} else {
+					sw, err = m.AcquireRead(context.Background(), o.k)
+				}
+				if err != nil {
+					continue
+				}
+				logf(tr.E{"ev": "mon", "kind": "in", "p": t + 1, "k": o.k, "m": o.m})
+				for j := 0; j < 50; j++ {
+					_ = j
+				}
+				logf(tr.E{"ev": "mon", "kind": "out", "p": t + 1, "k": o.k, "m": o.m})
+				if o.m == "w" {
+					m.ReleaseWrite(o.k, sw)
+				} else {
+					m.ReleaseRead(o.k, sw)
+				}
+			}
+		}(t)
+	}
+	for atomic.LoadInt32(&ready) < int32(nthreads) {
+		runtime.Gosched()
+	}
+	atomic.StoreInt32(&goFlag, 1)
+	stuck := waitOr(&wg, 10*time.Second, nthreads, &finished)
+	if stuck > 0 {
+		coldStuck++
+	}
+	mu.Lock()
+	snap := append([]tr.E(nil), evs...)
+	mu.Unlock()
+	w.Emit(tr.E{"ev": "reset", "ratio": ratio, "variant": variant, "shards": shards, "src": "cold", "keystr": false})
+	for _, e := range snap {
+		w.Emit(e)
+	}
+	w.Emit(tr.E{"ev": "end", "entries": semap.VerifEntries(m), "stuck": stuck})
 }
 
 func main() {
+	ncold := flag.Int("ncold", 400, "cold-start rounds (first use of a fresh container under contention)")
 	plans := flag.String("plans", "", "directory of TLC-generated plans")
 	out := flag.String("out", "steps.ndjson", "step traces")
 	stress := flag.String("stress", "stress.ndjson", "stress traces")
@@ -608,7 +743,7 @@ func main() {
 		}
 	}
 	for i := 0; i < *nrand; i++ {
-		ratio := []int{1, 2, 3, 10}[rng.Intn(4)]
+		ratio := []int{1, 2, 3, 10, 1, 2, 3, hugeSpec, hugeSpec - 1}[rng.Intn(9)]
 		np := rng.Intn(4) + 3
 		nk := rng.Intn(3) + 1
 		runPlan(w, "rand", variants[rng.Intn(3)], ratio, shardsL[rng.Intn(4)], np, nk, rng.Intn(2) == 0,
@@ -624,6 +759,9 @@ func main() {
 			// heavy contention: many goroutines on one or two keys, every third acquire cancelled
 			runStress(sw, rng, variants[i%3], []int{1, 2, 3}[rng.Intn(3)], shardsL[rng.Intn(4)], *sthreads, 1+rng.Intn(2), *sops)
 		}
+	}
+	for i := 0; i < *ncold && coldStuck < 3; i++ {
+		runCold(sw, rng, variants[i%3], []int{1, 2, 3, hugeSpec}[rng.Intn(4)], shardsL[rng.Intn(4)], 2+rng.Intn(3))
 	}
 	sw.Close()
 	fmt.Printf("step_events=%d stress_events=%d batches_enumerated=%d\n", w.N(), sw.N(), nb)
